@@ -3,8 +3,8 @@
 package pgsim
 
 import (
-	"database/sql"
 	"context"
+	"database/sql"
 	"errors"
 	"fmt"
 	"io"
